@@ -20,6 +20,8 @@ class P(vlib.Prop):
                      "^TestVerifC01E2E$", "queuebatch", timeout=900),
         vlib.Harness("retry", "exporter", "./exporterhelper/internal/",
                      {"zz_verif_c01_retry_test.go": "C01/retry_test.go"}, "^TestVerifC01Retry$", "internal", timeout=600),
+        vlib.Harness("exporter", "exporter", "./exporterhelper/internal/",
+                     {"zz_verif_c01_exporter_test.go": "C01/exporter_test.go"}, "^TestVerifC01Exporter$", "internal", timeout=600),
     ]
     rule = ("histories of process incarnations on the real persistentQueue[uint64] over one backing map: generated "
             "scripts (Offer/Read/Complete/Shutdown 40/30/25/5, outcomes ok/failed/shutdown 60/25/15, capacities 1-8 and 100, "
@@ -28,7 +30,9 @@ class P(vlib.Prop):
             "death point, and below each of them every boundary of the next incarnation (thorough: a third level, thinned 1:3), "
             "then clean drain incarnations until the store holds no body. Compared inside Coq: per operation result class / index / "
             "id / Size(), death flag, Close count and the complete store as bytes after every incarnation; plus decoder/encoder "
-            "cases on random bytes and the ends of the real retrySender.Send (class of the error the queue sees). Oracle-only (no cases): "
+            "cases on random bytes and 70 scenarios of 1-3 concurrent Sends of the real retrySender with one Shutdown placed per Send before it / during its export call / "
+            "during its back-off / never (class of the error the queue sees, number of attempts). Oracle-only (no cases): 40 histories through the real NewBaseExporter chain "
+            "(persistent queue + retry) shut down with requests in flight and restarted on the same storage; "
             "300 concurrent end-to-end histories through the real asyncQueue consumers + disabled batcher with deaths emulated at the "
             "storage boundary. A history is "
             "non-trivial when some incarnation died or some request was handed off; distinct = distinct case terms.")
